@@ -4,6 +4,7 @@
   harness) to run the model on exactly the inputs the implementation is run on.
 -/
 import FastPasta
+import FastPasta.Spec.ProtocolExec
 open FastPasta
 
 def joinSp (l : List String) : String := " ".intercalate l
@@ -78,6 +79,14 @@ def parsePacket (t : String) : Option Packet :=
     match o.toNat?, parseHex r, parseHex p with
     | some off, some rb, some pb => some { offset := off, rdh := decodeRdh rb, payload := pb }
     | _, _, _ => none
+  | _ => none
+
+def parseRawPacket (t : String) : Option (Bytes × Bytes) :=
+  match t.splitOn ":" with
+  | [_, r, p] =>
+    match parseHex r, parseHex p with
+    | some rb, some pb => some (rb, pb)
+    | _, _ => none
   | _ => none
 
 def rdhFields (r : Rdh) : String :=
@@ -185,6 +194,16 @@ def handle (line : String) : String :=
     match linkRun cfg (LinkSt.init cfg) pks with
     | .error e => s!"PANIC {e.name}"
     | .ok (_, ms) => s!"OK alpide={showAlpide (sumAlpide ms)} " ++ showMsgs ms
+  | "conf" :: rest =>
+    -- is this link (its packets in order) inside the protocol grammar of Spec.Protocol?
+    let cfgToks := rest.takeWhile (· != "--")
+    let pkToks := (rest.dropWhile (· != "--")).drop 1
+    let running := kvGet (parseKv cfgToks) "running" "0" == "1"
+    let pks := pkToks.filterMap parseRawPacket
+    if pks.length != pkToks.length then "bad-op" else
+    (match Proto.confLink running {} pks with
+     | .error e => s!"REJECT {e}"
+     | .ok c => s!"CONFORMS n={c.idx}")
   | "scan" :: rest =>
     let kv := parseKv rest
     match parseHex (kvGet kv "data") with
